@@ -33,8 +33,16 @@ pub enum Case {
     SeekAfterFault { w: Wd, n_words: u8, seed: u64, schedule: Vec<Act>, reads: u8, k: u8 },
     /// bit-level stream written through BufBitWriter<E, WordAdapter<W, faulty sink>>
     BitWrite { e: En, w: Wd, fields: Vec<(u64, u8)>, schedule: Vec<Act> },
-    /// bit-level stream read through BufBitReader<E, WordAdapter<W, faulty source>>
+    /// bit-level stream read through BufBitReader<E, WordAdapter<W, faulty source>>; a width above 64 stands for
+    /// skip_bits(width - 64)
     BitRead { e: En, w: Wd, seed: u64, widths: Vec<u8>, schedule: Vec<Act> },
+    /// std::io::Write::write_all on BufBitWriter<E, WordAdapter<W, faulty sink>> after `pre` bits, then flush
+    IoWrite { e: En, w: Wd, pre: u8, slice: Vec<u8>, schedule: Vec<Act> },
+    /// the byte sink's flush reports ErrorKind::Interrupted `faults` times and then succeeds; the caller retries
+    /// (Interrupted is the retryable kind). `bit` = through BufBitWriter<E, WordAdapter<W, _>>, else WordAdapter alone.
+    /// After the flush that returns Ok the sink must have been flushed and hold every byte exactly once; the
+    /// `more` fields written afterwards must follow directly.
+    FlushRetry { e: En, w: Wd, bit: bool, fields: Vec<(u64, u8)>, faults: u8, more: Vec<(u64, u8)> },
 }
 
 pub const DEF: PropDef = PropDef {
@@ -44,7 +52,9 @@ either transfers at most k bytes (k = 0..=requested: short transfers), or return
 it behaves normally. Exhaustive: every schedule of up to 4 actions over the alphabet {limit 0..=W, Interrupted, hard error} for word sizes up \
 to u32 on 2-word sequences (write side and read side); random schedules for all word sizes; seekable sources (Cursor, BufReader<Cursor>) with \
 read_word / write_word / word_pos / set_word_pos sequences; an absolute set_word_pos(k) after a read error was reported must still \
-address word k; bit-level streams written and read through BufBitWriter/BufBitReader over the adapter, both \
+address word k; a byte sink whose flush reports Interrupted a few times before it succeeds, with the caller retrying (the flush that returns Ok \
+must have reached the sink, every byte must be there exactly once, later writes follow directly); bit-level reads and skips with one fault at \
+every backend call index (a skip that returns Ok must have passed over exactly that many bits); byte slices written with io::Write::write_all through a bit writer over the adapter; bit-level streams written and read through BufBitWriter/BufBitReader over the adapter, both \
 endiannesses, compared with the memory image. Oracle: without faults the sink holds exactly the concatenated native-endian word bytes; with \
 faults, whenever write_word / read_word / flush returns Ok every byte of that word was transferred exactly once and in order (sink == \
 concatenation of all Ok words; word read == word at that index); whenever it returns Err the bytes received so far are the Ok words followed by \
@@ -71,6 +81,8 @@ struct Shared {
     armed: bool,
     /// bytes accepted since the sink's flush was last called
     unflushed: usize,
+    /// the next `flush_faults` calls of the sink's flush return ErrorKind::Interrupted (and flush nothing)
+    flush_faults: u8,
 }
 
 #[derive(Clone)]
@@ -121,7 +133,13 @@ impl Write for Faulty {
         }
     }
     fn flush(&mut self) -> std::io::Result<()> {
-        self.0.borrow_mut().unflushed = 0;
+        let mut s = self.0.borrow_mut();
+        if s.flush_faults > 0 {
+            s.flush_faults -= 1;
+            s.met_interrupt = true;
+            return Err(ErrorKind::Interrupted.into());
+        }
+        s.unflushed = 0;
         Ok(())
     }
 }
@@ -460,12 +478,71 @@ where
     Ok(o)
 }
 
+fn io_write<W>(e: En, pre: u8, slice: &[u8], schedule: &[Act], wname: &str) -> CheckResult
+where
+    W: Wordy + dsi_bitstream::traits::Word,
+    u64: common_traits::CastableInto<W>,
+{
+    let mut model = BitVec::new();
+    model.push_field(0x2AAA_AAAA_AAAA_AAAAu128 & crate::ops::mask64(pre as usize) as u128, pre as usize, e);
+    for &b in slice {
+        // byte j of the slice occupies the next 8 stream bits in stream order (C12): most significant bit first
+        // on BE streams, least significant first on LE streams, i.e. an 8-bit field in both cases
+        model.push_field(b as u128, 8, e);
+    }
+    model.pad_to(<W as Wordy>::BYTES * 8);
+    let exp = model.to_bytes(e);
+    let sink = Faulty::new(schedule, vec![]);
+    let mut o = Outcome::new();
+    let mut errored = false;
+    macro_rules! go {
+        ($E:ty) => {{
+            let mut bw = std::mem::ManuallyDrop::new(BufBitWriter::<$E, _>::new(WordAdapter::<W, _>::new(sink.clone())));
+            if bw.write_bits(0x2AAA_AAAA_AAAA_AAAAu64 & crate::ops::mask64(pre as usize), pre as usize).is_err() {
+                errored = true;
+            }
+            if !errored && std::io::Write::write_all(&mut *bw, slice).is_err() {
+                errored = true;
+            }
+            // odd prefixes end with io::Write::flush, even ones with BitWrite::flush
+            if !errored {
+                let fl = if pre % 2 == 1 { std::io::Write::flush(&mut *bw).is_err() } else { BitWrite::flush(&mut *bw).is_err() };
+                if fl {
+                    errored = true;
+                }
+            }
+            let at_error = sink.0.borrow().bytes.clone();
+            sink.0.borrow_mut().armed = false;
+            drop(std::mem::ManuallyDrop::into_inner(bw));
+            at_error
+        }};
+    }
+    let at_end = match e {
+        En::BE => go!(BE),
+        En::LE => go!(LE),
+    };
+    label_faults(&mut o, &sink);
+    if errored {
+        o.label("error_reported");
+        if at_end.len() > exp.len() || at_end[..] != exp[..at_end.len()] {
+            fail!(format!("io_write/{}/err_state", wname), "an error was reported but the sink ({}) is not a prefix of the memory image ({})", crate::ops::hex(&at_end), crate::ops::hex(&exp));
+        }
+    } else if at_end != exp {
+        fail!(
+            format!("io_write/{}/ok_but_bytes_differ", wname),
+            "write_all and flush returned Ok but the sink holds {} while the memory image is {}; schedule {:?}",
+            crate::ops::hex(&at_end), crate::ops::hex(&exp), schedule
+        );
+    }
+    Ok(o)
+}
+
 fn bit_read<W>(e: En, seed: u64, widths: &[u8], schedule: &[Act], wname: &str) -> CheckResult
 where
     W: Wordy + dsi_bitstream::traits::Word + common_traits::DoubleType + common_traits::UpcastableInto<u64>,
     <W as common_traits::DoubleType>::DoubleType: common_traits::CastableInto<u64>,
 {
-    let total: usize = widths.iter().map(|&n| n as usize).sum();
+    let total: usize = widths.iter().map(|&n| if n > 64 { n as usize - 64 } else { n as usize }).sum();
     let nbytes = (total.div_ceil(8) + 16).div_ceil(<W as Wordy>::BYTES) * <W as Wordy>::BYTES;
     let mut r = Rng::new(seed);
     let data: Vec<u8> = (0..nbytes).map(|_| r.next() as u8).collect();
@@ -477,6 +554,20 @@ where
             let mut br = BufBitReader::<$E, _>::new(WordAdapter::<W, _>::new(src.clone()));
             let mut p = 0usize;
             for (i, &n) in widths.iter().enumerate() {
+                if n > 64 {
+                    // a skip: Ok means exactly that many bits were passed over (checked by the reads that follow)
+                    match br.skip_bits(n as usize - 64) {
+                        Ok(()) => {
+                            p += n as usize - 64;
+                            o.label("skip_ok");
+                            continue;
+                        }
+                        Err(_) => {
+                            o.label("error_reported");
+                            break;
+                        }
+                    }
+                }
                 match br.read_bits(n as usize) {
                     Ok(v) => {
                         let exp = model.field(p, n as usize, e) as u64;
@@ -502,8 +593,119 @@ where
     Ok(o)
 }
 
+fn flush_retry<W>(e: En, bit: bool, fields: &[(u64, u8)], faults: u8, more: &[(u64, u8)], wname: &str) -> CheckResult
+where
+    W: Wordy + dsi_bitstream::traits::Word,
+    u64: common_traits::CastableInto<W>,
+{
+    let wbits = <W as Wordy>::BYTES * 8;
+    let mut o = Outcome::new();
+    let sink = Faulty::new(&[], vec![]);
+    sink.0.borrow_mut().flush_faults = faults;
+    let mut model = BitVec::new();
+    let push = |m: &mut BitVec, fs: &[(u64, u8)]| {
+        for &(v, n) in fs {
+            if bit {
+                m.push_field((v & crate::ops::mask64(n as usize)) as u128, n as usize, e);
+            } else {
+                // word level: every field is one whole word (native byte order = LE image on this host)
+                m.push_field((v as u128) & if wbits == 128 { u128::MAX } else { (1u128 << wbits) - 1 }, wbits, En::LE);
+            }
+        }
+        m.pad_to(wbits);
+    };
+    push(&mut model, fields);
+    let exp1 = model.to_bytes(if bit { e } else { En::LE });
+    push(&mut model, more);
+    let exp2 = model.to_bytes(if bit { e } else { En::LE });
+    let mut verdict: Option<Failure> = None;
+    macro_rules! retry_flush {
+        ($flush:expr, $tag:expr) => {{
+            let mut errs = 0u32;
+            let mut done = false;
+            for _ in 0..faults as u32 + 3 {
+                match $flush {
+                    Ok(_) => {
+                        done = true;
+                        break;
+                    }
+                    Err(_) => errs += 1,
+                }
+            }
+            if !done {
+                verdict = Some(Failure::new(format!("flush_retry/{}/{}/never_ok", $tag, wname), format!("flush kept failing {} times although the sink's flush failed only {} times with Interrupted", errs, faults)));
+            } else if sink.0.borrow().unflushed != 0 {
+                verdict = Some(Failure::new(
+                    format!("flush_retry/{}/{}/ok_but_not_flushed", $tag, wname),
+                    format!("after {} Interrupted flush failures the retried flush returned Ok without reaching the byte sink ({} bytes never flushed)", errs, sink.0.borrow().unflushed),
+                ));
+            } else if errs > 0 {
+                o.nt("flush_retried_after_interrupted");
+            }
+        }};
+    }
+    macro_rules! go_bit {
+        ($E:ty) => {{
+            let mut bw = std::mem::ManuallyDrop::new(BufBitWriter::<$E, _>::new(WordAdapter::<W, _>::new(sink.clone())));
+            for &(v, n) in fields {
+                let _ = bw.write_bits(v & crate::ops::mask64(n as usize), n as usize);
+            }
+            retry_flush!(BitWrite::flush(&mut *bw), "bit");
+            if verdict.is_none() && sink.0.borrow().bytes != exp1 {
+                verdict = Some(Failure::new(
+                    format!("flush_retry/bit/{}/bytes", wname),
+                    format!("after the flush that returned Ok the sink holds {} but the memory image is {}", crate::ops::hex(&sink.0.borrow().bytes), crate::ops::hex(&exp1)),
+                ));
+            }
+            if verdict.is_none() {
+                for &(v, n) in more {
+                    let _ = bw.write_bits(v & crate::ops::mask64(n as usize), n as usize);
+                }
+                let _ = BitWrite::flush(&mut *bw);
+                if sink.0.borrow().bytes != exp2 {
+                    verdict = Some(Failure::new(
+                        format!("flush_retry/bit/{}/later_bytes", wname),
+                        format!("fields written after the retried flush: the sink holds {} but the memory image is {}", crate::ops::hex(&sink.0.borrow().bytes), crate::ops::hex(&exp2)),
+                    ));
+                }
+            }
+            drop(std::mem::ManuallyDrop::into_inner(bw));
+        }};
+    }
+    if bit {
+        match e {
+            En::BE => go_bit!(BE),
+            En::LE => go_bit!(LE),
+        }
+    } else {
+        let mut ad = WordAdapter::<W, _>::new(sink.clone());
+        for &(v, _) in fields {
+            let _ = ad.write_word(common_traits::CastableInto::<W>::cast(v));
+        }
+        retry_flush!(WordWrite::flush(&mut ad), "word");
+        if verdict.is_none() && sink.0.borrow().bytes != exp1 {
+            verdict = Some(Failure::new(format!("flush_retry/word/{}/bytes", wname), "after the flush that returned Ok the sink does not hold every word exactly once".to_string()));
+        }
+        if verdict.is_none() {
+            for &(v, _) in more {
+                let _ = ad.write_word(common_traits::CastableInto::<W>::cast(v));
+            }
+            let _ = WordWrite::flush(&mut ad);
+            if sink.0.borrow().bytes != exp2 || sink.0.borrow().unflushed != 0 {
+                verdict = Some(Failure::new(format!("flush_retry/word/{}/later_bytes", wname), "words written after the retried flush are missing, duplicated or never flushed".to_string()));
+            }
+        }
+    }
+    if let Some(f) = verdict {
+        return Err(f);
+    }
+    Ok(o)
+}
+
 pub fn check_case(c: &Case, _env: &Env) -> CheckResult {
     match c {
+        Case::IoWrite { e, w, pre, slice, schedule } => for_w!(*w, W => io_write::<W>(*e, *pre, slice, schedule, &format!("w{}", w.bits()))),
+        Case::FlushRetry { e, w, bit, fields, faults, more } => for_w!(*w, W => flush_retry::<W>(*e, *bit, fields, *faults, more, &format!("w{}", w.bits()))),
         Case::WriteWords { w, n_words, seed, schedule } => for_w!(*w, W => write_words::<W>(*n_words as usize, *seed, schedule, &format!("w{}", w.bits()))),
         Case::ReadWords { w, n_words, seed, schedule, reads } => for_w!(*w, W => read_words::<W>(*n_words as usize, *seed, schedule, *reads as usize, &format!("w{}", w.bits()))),
         Case::SeekAfterFault { w, n_words, seed, schedule, reads, k } => for_w!(*w, W => seek_after_fault::<W>(*n_words as usize, *seed, schedule, *reads as usize, *k as usize, &format!("w{}", w.bits()))),
@@ -601,6 +803,67 @@ fn run(ctx: &Ctx, env: &Env) -> Stats {
         }
         part.finish()
     }));
+    jobs.push(Box::new(move |ctx: &Ctx| {
+        let mut part = Part::new(ctx, "flush_retry", "sink flush fails 0..=3 times with Interrupted, the caller retries: every word size, both endiannesses, word level and bit level, pending bits 0..=W+1", true);
+        let f = |c: &Case| check_case(c, env);
+        for w in Wd::WRITER {
+            for faults in 0..=3u8 {
+                for e in En::ALL {
+                    for pending in 0..=(w.bits().min(64) + 1) {
+                        let mut fields = vec![(0x5A5A_A5A5_1234_5678u64, (pending.min(64)) as u8)];
+                        if pending > 64 {
+                            fields.push((1, (pending - 64) as u8));
+                        }
+                        part.check(&Case::FlushRetry { e, w, bit: true, fields, faults, more: vec![(0x2B, 6), (0x1FFFF, 17)] }, &f);
+                    }
+                }
+                for n in 0..=2usize {
+                    let fields: Vec<(u64, u8)> = (0..n).map(|i| (0x0123_4567_89AB_CDEFu64.rotate_left(i as u32 * 8), 0)).collect();
+                    part.check(&Case::FlushRetry { e: En::LE, w, bit: false, fields, faults, more: vec![(0xFEDC_BA98_7654_3210, 0)] }, &f);
+                }
+            }
+        }
+        part.finish()
+    }));
+    jobs.push(Box::new(move |ctx: &Ctx| {
+        let mut part = Part::new(ctx, "io_write_faults", "io::Write::write_all of 0..=20 bytes through a bit writer over the adapter, one fault at every sink call index", true);
+        let f = |c: &Case| check_case(c, env);
+        for w in Wd::WRITER {
+            for e in En::ALL {
+                for len in [0usize, 1, 3, 8, 9, 16, 20] {
+                    for pre in [0u8, 3, 8] {
+                        for at in 0..6usize {
+                            for act in [Act::Fail, Act::Interrupted, Act::Limit(1), Act::Limit(0)] {
+                                let mut schedule = vec![Act::Limit(255); at];
+                                schedule.push(act);
+                                let slice: Vec<u8> = (0..len).map(|i| (i as u8).wrapping_mul(37).wrapping_add(0x81)).collect();
+                                part.check(&Case::IoWrite { e, w, pre, slice, schedule }, &f);
+                            }
+                        }
+                    }
+                }
+            }
+        }
+        part.finish()
+    }));
+    jobs.push(Box::new(move |ctx: &Ctx| {
+        let mut part = Part::new(ctx, "bit_skip_faults", "reads and skips (within the buffer, across one word, across several words) with one fault at every backend call index", true);
+        let f = |c: &Case| check_case(c, env);
+        for w in Wd::READER {
+            for e in En::ALL {
+                for at in 0..10usize {
+                    for act in [Act::Fail, Act::Interrupted, Act::Limit(1), Act::Limit(0)] {
+                        let mut schedule = vec![Act::Limit(255); at];
+                        schedule.push(act);
+                        for widths in [vec![5u8, 64 + 40, 7, 64 + 100, 11, 64 + 3, 13, 64 + 191, 9], vec![64 + 70, 3, 64 + 130, 64 + 64, 17]] {
+                            part.check(&Case::BitRead { e, w, seed: 11 + ctx.seed, widths, schedule: schedule.clone() }, &f);
+                        }
+                    }
+                }
+            }
+        }
+        part.finish()
+    }));
     let n_rand = ctx.t(100_000u64, 8_000_000);
     for j in 0..8 {
         jobs.push(Box::new(move |ctx: &Ctx| {
@@ -614,7 +877,19 @@ fn run(ctx: &Ctx, env: &Env) -> Stats {
 
 pub fn gen_case(s: &mut Src) -> Case {
     let w = s.pick(&Wd::WRITER);
-    match s.below(6) {
+    match s.below(8) {
+        7 => {
+            let n = s.below(40);
+            Case::IoWrite { e: crate::gen::gen_en(s), w, pre: s.below(65) as u8, slice: (0..n).map(|_| s.u8()).collect(), schedule: gen_schedule(s, w.bytes(), true) }
+        }
+        6 => {
+            let bit = s.bool();
+            let k = s.below(6);
+            let fields = (0..k).map(|_| (s.u64(), if bit { crate::gen::gen_width(s, w.bits()) } else { 0 })).collect();
+            let k2 = s.below(4);
+            let more = (0..k2).map(|_| (s.u64(), if bit { crate::gen::gen_width(s, w.bits()) } else { 0 })).collect();
+            Case::FlushRetry { e: crate::gen::gen_en(s), w, bit, fields, faults: s.below(4) as u8, more }
+        }
         5 => Case::SeekAfterFault { w, n_words: s.range(1, 6) as u8, seed: s.u16() as u64, schedule: gen_schedule(s, w.bytes(), true), reads: s.range(1, 7) as u8, k: s.below(7) as u8 },
         0 => Case::WriteWords { w, n_words: s.range(1, 6) as u8, seed: s.u16() as u64, schedule: gen_schedule(s, w.bytes(), true) },
         1 => Case::ReadWords { w, n_words: s.range(0, 6) as u8, seed: s.u16() as u64, schedule: gen_schedule(s, w.bytes(), true), reads: s.range(1, 8) as u8 },
@@ -636,7 +911,7 @@ pub fn gen_case(s: &mut Src) -> Case {
         _ => {
             let w = s.pick(&Wd::READER);
             let k = s.range(1, 12);
-            Case::BitRead { e: crate::gen::gen_en(s), w, seed: s.u16() as u64, widths: (0..k).map(|_| crate::gen::gen_width(s, w.bits())).collect(), schedule: gen_schedule(s, w.bytes(), true) }
+            Case::BitRead { e: crate::gen::gen_en(s), w, seed: s.u16() as u64, widths: (0..k).map(|_| if s.below(4) == 0 { 65 + s.below(191) as u8 } else { crate::gen::gen_width(s, w.bits()) }).collect(), schedule: gen_schedule(s, w.bytes(), true) }
         }
     }
 }
